@@ -161,6 +161,23 @@ def run(ctx):
     ctx.check("serde_json::ser::to_string" in calls and not fmt_reads, "C01.serialize", "C01.serialize:Display", w.where(fd),
               bad_msg=f"Display calls {calls}")
 
+    # the canonical string that is signed / hashed (ruma-signatures) is serde_json::to_string of a CanonicalJsonObject as a whole: no second,
+    # hand-written writer whose quoting or separators could differ from the serializer checked above
+    SF = "ruma_signatures::functions::"
+    WRITERS = ("alloc::fmt::format", "String::push_str", "String::push", "Arguments::<'a>::new", "fmt::Write>::write_str", "fmt::Write>::write_char", "::join", "::concat")
+    for name in ("canonical_json", "canonical_json_with_fields_to_remove"):
+        fs_ = w.lookup(SF + name)
+        if fs_ is None or "body" not in fs_:
+            ctx.missing("C01.serialize", f"C01.serialize:signatures:{name}", f"{SF}{name} not found")
+            continue
+        fam_ = [fs_] + [g for g in w.crates["ruma_signatures"].all_fns() if "body" in g and g["path"].startswith(fs_["path"] + "::{closure")]
+        calls_ = [M.callee_name(c) for g in fam_ for b_ in M.all_bodies(g) for _, c in M.calls(b_)]
+        writers = sorted({c.rsplit("::", 2)[-2] + "::" + c.rsplit("::", 1)[-1] for c in calls_ if any(c.endswith(x) or x in c for x in WRITERS)})
+        delegates = any(c == "serde_json::ser::to_string" or c == SF + "canonical_json_with_fields_to_remove" for c in calls_)
+        ctx.check(delegates and not writers, "C01.serialize", f"C01.serialize:signatures:{name}", w.where(fs_),
+                  bad_msg=f"{name} builds (part of) the canonical string itself ({writers or 'no serde_json::to_string call'}): keys or separators written by hand "
+                          f"need not agree with serde_json's escaping (e.g. `{{key:?}}` writes \\u{{1}} for a control character where JSON requires \\u0001)")
+
     # ---- build configuration -----------------------------------------------------------------------
     ctx.rule("C01.features", "serde_json is resolved without `arbitrary_precision` (Number::as_i64 would otherwise parse text) and "
                              "`float_roundtrip`/`preserve_order` do not matter because keys are re-sorted by the BTreeMap (informational except arbitrary_precision)")
